@@ -149,6 +149,8 @@ type ioOp struct {
 	rwHolders   int // replicas listed RW at that moment that hold it
 	attachedN   int
 	coldStarts0 int // cold-start elections seen so far
+	// set when a write that was NOT acknowledged is judged (for the D23 classifier)
+	woAppliers []string // replicas that were WO (rebuilding) at that moment and applied it
 }
 
 func (o *ioOp) ok() bool {
@@ -447,6 +449,22 @@ func (cr *clRun) exec(i int, op Op) {
 				cr.note("stall", rn.name)
 				cr.res.stat("fault_conn_stall", 1)
 			}
+		}
+	case "diskerr":
+		// the (B+1)-th data-file write (F: read) on replica A fails once: C = 0 EIO, 1 ENOSPC, 2 short write.
+		// The replica answers that request with an error frame and stays alive.
+		rn := cr.rep(op.A)
+		if rn.up && rn.node != nil {
+			kind := []simrt.DiskVerdict{simrt.DiskEIO, simrt.DiskENOSPC, simrt.DiskShort}[int(op.C)%3]
+			c.mu.Lock()
+			if c.diskArms == nil {
+				c.diskArms = map[string]*clDiskArm{}
+			}
+			c.diskArms[rn.name] = &clDiskArm{read: op.F, skip: int(op.B), kind: kind}
+			c.mu.Unlock()
+			cr.faultsActive = true
+			cr.note("diskerr", fmt.Sprintf("%s-%v", rn.name, op.F))
+			cr.res.stat("fault_disk_armed", 1)
 		}
 	case "httpfault":
 		// the next B HTTP exchanges between the controller and replica A lose their
@@ -1051,6 +1069,14 @@ func (cr *clRun) judgeIO(o *ioOp) {
 			}
 		}
 		cr.res.stat("write_judged", 1)
+		if !o.ok() {
+			o.coldStarts0 = cr.coldStarts
+			for _, r := range o.list {
+				if r.Mode == types.WO && applied[r.Address] {
+					o.woAppliers = append(o.woAppliers, r.Address)
+				}
+			}
+		}
 		if o.ok() {
 			if na*2 <= len(attached) {
 				cr.viol("C02", "acknowledged-without-majority", "write %d acknowledged but only %d of %d attached replicas hold it (attached %v, applied %v)", o.idx, na, len(attached), attached, applied)
@@ -1279,6 +1305,34 @@ func (cr *clRun) woMajorityLoss(s int64) *ioOp {
 	return nil
 }
 
+// unackedWriteOnlyOnWO recognises known finding D23: sector s differs between
+// two RW replicas, and a write that covered s's 4 KiB block was reported as
+// FAILED to the initiator while a rebuilding (WO) replica had applied it, and a
+// cold-start election has happened since. The WO replica's aborted rebuild is
+// "reset" (sync.checkAndResetFailedRebuild) to an ordinary closed replica with
+// its old revision counter (WO writes do not advance it); if it wins the tie at
+// the election, the others find equal revision counters and equal chain names
+// and skip the file sync altogether (sync.isRevisionCountAndChainSame), so they
+// are promoted although they differ from their source in that block.
+func (cr *clRun) unackedWriteOnlyOnWO(s int64) *ioOp {
+	if s < 0 {
+		return nil
+	}
+	b0, b1 := (s/8)*8*sect, (s/8+1)*8*sect
+	for _, o := range cr.ios {
+		if os.Getenv("VERIF_DEBUG_D23") != "" {
+			fmt.Fprintf(os.Stderr, "D23? op %d kind=%s acked=%v wo=%v cold0=%d cold=%d off=%d n=%d list=%v\n", o.idx, o.kind, o.acked, o.woAppliers, o.coldStarts0, cr.coldStarts, o.off, o.n, o.list)
+		}
+		if o.data == nil || o.acked || len(o.woAppliers) == 0 || cr.coldStarts <= o.coldStarts0 {
+			continue
+		}
+		if o.off < b1 && o.off+o.n > b0 {
+			return o
+		}
+	}
+	return nil
+}
+
 func (cr *clRun) d20Note(w *ioOp) string {
 	return fmt.Sprintf(" [write %d was acknowledged with %d RW holder(s) of %d attached replicas, the rest of its majority was rebuilding; a cold start followed]", w.idx, w.rwHolders, w.attachedN)
 }
@@ -1438,6 +1492,7 @@ func (cr *clRun) settle() {
 	cr.httpDrops = nil
 	cr.c.mu.Lock()
 	cr.hooks = map[string]int{}
+	cr.c.diskArms = nil
 	cr.c.mu.Unlock()
 	cr.faultsActive = false
 	started := 0
@@ -1628,14 +1683,18 @@ func (clustersim) Generate(rng *Rand, prop, tier string) *Script {
 	fault := func() { faultOn(int64(rng.Intn(nreps))) }
 	faultOn = func(r int64) {
 		switch x := rng.Intn(100); {
-		case x < 35:
+		case x < 30:
 			add(Op{K: "kill", A: r})
-		case x < 55:
+		case x < 46:
 			add(Op{K: "resetconn", A: r})
-		case x < 70:
+		case x < 58:
 			add(Op{K: "stall", A: r, B: int64(rng.Intn(2))})
-		case x < 80:
+		case x < 68:
 			add(Op{K: "part", A: r})
+		case x < 80:
+			// a data-file write (or read) on that replica fails: error reply, process stays up
+			add(Op{K: "diskerr", A: r, B: int64(rng.Intn(2)), C: int64(rng.Intn(3)), F: rng.Bool(30)})
+			genIO()
 		case x < 88:
 			add(Op{K: "httpfault", A: r, B: int64(rng.Range(1, 3)), F: rng.Bool(60), C: int64(rng.Intn(12))})
 		case x < 94:
@@ -1729,6 +1788,14 @@ func (clustersim) Generate(rng *Rand, prop, tier string) *Script {
 			add(Op{K: "restart", A: victim})
 			add(Op{K: "adv", A: int64(rng.Range(5, 2500))})
 			for i, k := 0, rng.Range(1, 5); i < k; i++ {
+				if rng.Bool(20) {
+					// a transient disk error on the rebuilding replica (or another one) for the next write
+					dv := victim
+					if rng.Bool(30) {
+						dv = int64(rng.Intn(nreps))
+					}
+					add(Op{K: "diskerr", A: dv, B: 0, C: int64(rng.Intn(3)), F: false})
+				}
 				genIO()
 				if rng.Bool(35) {
 					if rng.Bool(50) {
